@@ -160,7 +160,7 @@ def plan(ctx):
               'batch_size {1,2,3} x (num_epochs,num_steps) in {None,1,2}x{None,0,1,3} minus (None,None) x drop_remainder x '
               'seed {0,1}; C: optimizer pairs {sgd,momentum,adam}^2 x all cohort histories up to depth %d over 6 cohorts of '
               'population (2,3,0); D: populations of <=2 clients x {jit,debug,pmap1,pmap2,pmap3}; distinct = case tuple; '
-              'non-trivial = empty client / unequal sizes / size not divisible by batch_size' % (3 if th else 2))
+              'non-trivial = empty client / unequal sizes / size not divisible by batch_size' % (4 if th else 2))
   ctx.assumptions += ['3-parameter regression model, loss (x.w+b-y)^2 * (uniform(rng)+0.5) so that key handling is observable',
                       'the seeded batch stream itself is decided by C04; float32 vs float64 at rtol 1e-4']
   s = ctx.seed
@@ -179,7 +179,7 @@ def plan(ctx):
           for hs in ((0, 1) if th else (0,)):
             bc.append({'sizes': sizes, 'B': b, 'epochs': ep, 'steps': st, 'drop': drop, 'hseed': hs, 'seed': s})
   ctx.pmap('batching', bc, chunk=12)
-  ctx.pmap('histories', [{'copt': c, 'sopt': so, 'depth': 3 if th else 2, 'seed': s}
+  ctx.pmap('histories', [{'copt': c, 'sopt': so, 'depth': 4 if th else 2, 'seed': s}
                          for c in ('sgd', 'mom', 'adam') for so in ('sgd', 'mom', 'adam')], chunk=1)
   backs = ['debug', 'pmap1', 'pmap2', 'pmap3']
   dpops = [list(p) for n in (1, 2) for p in itertools.product(SIZES, repeat=n)]
